@@ -229,20 +229,20 @@ public:
     bool exists() const { return true; }
     QStringList entryList(int filters = NoFilter, int sort = NoSort) const
     {
-        // plain files of the directory, sorted by name (QDir's default sort and QDir::Name agree for these ASCII names)
+        // plain files of the directory, sorted by name (QDir's default sort and QDir::Name agree for these ASCII names).
+        // rank[i] = number of existing files that sort before file i; names are unique, so ranks are a permutation.
+        // (S^2/2 string comparisons; a selection sort needs S^3 and dominated symex time)
         (void)filters; (void)sort;
         QStringList l;
-        bool used[QM_FS_SLOTS];
-        for (int i = 0; i < QM_FS_SLOTS; ++i) used[i] = false;
-        for (int round = 0; round < QM_FS_SLOTS; ++round) {
-            int best = -1;
-            for (int i = 0; i < QM_FS_SLOTS; ++i) if (qm_fs[i].exists && !used[i]) {
-                bool better = best < 0;
-                for (int j = 0; j < QM_FS_SLOTS; ++j) if (j == best && qm_fs[i].name < qm_fs[j].name) better = true;
-                if (better) best = i;
-            }
-            if (best >= 0) { for (int i = 0; i < QM_FS_SLOTS; ++i) if (i == best) { used[i] = true; l.append(qm_fs[i].name); } }
+        int rank[QM_FS_SLOTS];
+        for (int i = 0; i < QM_FS_SLOTS; ++i) rank[i] = 0;
+        for (int i = 0; i < QM_FS_SLOTS; ++i) for (int j = i + 1; j < QM_FS_SLOTS; ++j) {
+            const bool both = qm_fs[i].exists && qm_fs[j].exists;
+            const bool lt = qm_fs[i].name < qm_fs[j].name;
+            if (both) { if (lt) ++rank[j]; else ++rank[i]; }
         }
+        for (int r = 0; r < QM_FS_SLOTS; ++r)
+            for (int i = 0; i < QM_FS_SLOTS; ++i) if (qm_fs[i].exists && rank[i] == r) l.append(qm_fs[i].name);
         return l;
     }
 };
